@@ -48,7 +48,8 @@ Inductive value :=
 | VDict (l : list (value * value))
 | VObj (cid : nat) (fs : list (string * value))   (* dataclass / NamedTuple instance, TypedDict: class id + fields by name *)
 | VEnum (eid : nat) (p : prim)                    (* enum member, identified by its value *)
-| VOther (tag : string).
+| VOther (tag : string)
+| VUndefined.                                     (* apischema.Undefined *)
 
 Definition fl_eqb (a b : fl) : bool :=
   match a, b with
@@ -128,6 +129,7 @@ Fixpoint value_eqb (a b : value) {struct a} : bool :=
                              | _, _ => false end) f1 f2
   | VEnum e1 p1, VEnum e2 p2 => Nat.eqb e1 e2 && prim_eqb p1 p2
   | VOther x, VOther y => String.eqb x y
+  | VUndefined, VUndefined => true
   | _, _ => false
   end.
 
@@ -154,6 +156,43 @@ Fixpoint py_eq (a b : value) {struct a} : bool :=
       | _, _ => false
       end
   end.
+
+(* Python == on results: like value_eqb, except that numbers are compared by value (1 == 1.0 == True) *)
+Fixpoint value_pyeq (a b : value) {struct a} : bool :=
+  match num_of a, num_of b with
+  | Some x, Some y => Z.eqb x y
+  | _, _ =>
+  match a, b with
+  | VList l1, VList l2 | VTuple l1, VTuple l2 =>
+      (fix go (l1 l2 : list value) : bool :=
+         match l1, l2 with
+         | [], [] => true
+         | x :: r1, y :: r2 => value_pyeq x y && go r1 r2
+         | _, _ => false end) l1 l2
+  | VSet l1, VSet l2 | VFrozenSet l1, VFrozenSet l2 =>
+      Nat.eqb (List.length l1) (List.length l2) &&
+      (fix all (l1 : list value) : bool :=
+         match l1 with [] => true | x :: r1 => existsb (value_pyeq x) l2 && all r1 end) l1
+  | VDict l1, VDict l2 =>
+      Nat.eqb (List.length l1) (List.length l2) &&
+      (fix all (l1 : list (value * value)) : bool :=
+         match l1 with
+         | [] => true
+         | (k1, x) :: r1 => existsb (fun kv => value_pyeq k1 (fst kv) && value_pyeq x (snd kv)) l2 && all r1
+         end) l1
+  | VObj c1 f1, VObj c2 f2 =>
+      Nat.eqb c1 c2 &&
+      (fix go (l1 l2 : list (string * value)) : bool :=
+         match l1, l2 with
+         | [], [] => true
+         | (k1, x) :: r1, (k2, y) :: r2 => String.eqb k1 k2 && value_pyeq x y && go r1 r2
+         | _, _ => false end) f1 f2
+  | _, _ => value_eqb a b
+  end
+  end.
+
+
+Definition value_loose_eqb := value_pyeq.
 
 (* can the value be put in a set / used as a dict key *)
 Fixpoint hashable (v : value) : bool :=
